@@ -348,6 +348,10 @@ def handle (ts : List String) : String :=
     match run XmlWire.pNoteAttrs rest with
     | some n => XmlWire.fmtNoteRead (Model.XmlNote.canon n)
     | none => "bad-request"
+  | "fnote" :: rest =>
+    match run XmlWire.pNoteAttrs rest with
+    | some n => XmlWire.fmtXml (Model.XmlNote.writeNote (Model.XmlNote.reexport (Model.XmlNote.canon n) n.nStaves))
+    | none => "bad-request"
   | "evnote" :: rest =>
     match run (do let i ← nat; let x ← XmlWire.pXml; pure (i, x)) rest with
     | some (i, x) =>
